@@ -1434,7 +1434,11 @@ void EvalStrExpression(tStrComp const* pExpr, TempResult* pErg) {
         for (z2 = pOp->Dyadic ? 0 : 1; z2 < 2; z2++) {
             TypeMask = (BestOpMatch >> (z2 * 4)) & 15;
             if (TypeMask & 2) { /* String -> Int */
-                TempResultToInt(&InVals[z2]);
+                if (TempResultToInt(&InVals[z2])) {
+                    /* only strings of 1..4 characters have an integer value */
+                    WrStrErrorPos(ErrNum_IntButString, &InArgs[z2]);
+                    LEAVE;
+                }
             }
             if (TypeMask & 1) { /* Int -> Float */
                 TempResultToFloat(&InVals[z2]);
